@@ -33,7 +33,12 @@ MergeInto1 == /\ len > 0 /\ InRangeE(exact1) /\ InRangeE(exact2) /\ InRangeE(exa
               /\ (r2 # Reg0 \/ exact2 # 0)
               /\ r1' = Merge(r1, r2) /\ exact1' = exact1 + exact2 /\ abs1' = abs1 + abs2
               /\ r2' = Reg0 /\ exact2' = 0 /\ abs2' = 0 /\ len' = len
-Next == Add1 \/ Add2 \/ MergeInto1
+\* the other operand order: the accumulated register as the right-hand side
+MergeInto2 == /\ len > 0 /\ InRangeE(exact1) /\ InRangeE(exact2) /\ InRangeE(exact1 + exact2) /\ abs1 + abs2 < 1000000000
+              /\ (r1 # Reg0 \/ exact1 # 0)
+              /\ r2' = Merge(r2, r1) /\ exact2' = exact1 + exact2 /\ abs2' = abs1 + abs2
+              /\ r1' = Reg0 /\ exact1' = 0 /\ abs1' = 0 /\ len' = len
+Next == Add1 \/ Add2 \/ MergeInto1 \/ MergeInto2
 Spec == Init /\ [][Next]_vars
 
 \* |value - exact| * 2^24 <= C * abs      (u = 2^-24)
